@@ -46,7 +46,7 @@ Fixpoint inv_rules (c : cmd) (i : inv) : Prop :=
   end.
 
 Lemma convx_assert_app c : convx c = true -> assert_app c = true.
-Proof. unfold convx. intros H. do 4 (apply andb_prop in H; destruct H as [H _]). exact H. Qed.
+Proof. unfold convx. intros H. apply andb_prop in H. destruct H as [H _]. apply andb_prop in H. destruct H as [H _]. exact H. Qed.
 
 (** THE DENOTATION SUCCEEDS *)
 Theorem run_inv_ok : forall i c, wfx_inv c i = true -> lvl_class c i = true -> inv_rules c i ->
